@@ -43,7 +43,10 @@ def show(e, full=False):
     if k in ("+", "-", "*", "/"):
         return "(%s %s %s)" % (show(e[1], full), k, show(e[2], full))
     if k == "^":
-        return "(%s)^%s" % (show(e[1], full), "(%d)" % e[2] if e[2] < 0 else str(e[2]))
+        ex = e[2]
+        if isinstance(ex, Fraction) and ex.denominator != 1:
+            return "(%s)^%s" % (show(e[1], full), repr(float(ex)))
+        return "(%s)^%s" % (show(e[1], full), "(%d)" % ex if ex < 0 else str(int(ex)))
     if k == "neg":
         return "(-%s)" % show(e[1], full)
     if k in ("exp", "log", "abs"):
@@ -58,6 +61,8 @@ def show(e, full=False):
 def exact_fragment(e):
     if e[0] in ("exp", "log"):
         return False
+    if e[0] == "^" and isinstance(e[2], Fraction) and e[2].denominator != 1:
+        return False
     return all(exact_fragment(a) for a in e[1:] if isinstance(a, tuple))
 
 
@@ -69,7 +74,7 @@ def gen(rng, depth, allow_uf=True):
     if k in ("+", "-", "*", "/"):
         return (k, gen(rng, depth - 1, allow_uf), gen(rng, depth - 1, allow_uf))
     if k == "^":
-        return ("^", gen(rng, depth - 1, allow_uf), rng.choice([2, 3, -1, -2, 0, 1]))
+        return ("^", gen(rng, depth - 1, allow_uf), rng.choice([2, 3, -1, -2, 0, 1, 2, Fraction(1, 2), Fraction(3, 2)] if allow_uf else [2, 3, -1, -2, 0, 1]))
     if k in ("min", "max"):
         return (k,) + tuple(gen(rng, depth - 1, allow_uf) for _ in range(rng.choice([2, 2, 3])))
     return (k, gen(rng, depth - 1, allow_uf))
@@ -91,7 +96,10 @@ def core_formulas():
     out += [("max", ("var", "A"), ("num", Fraction(2)), ("var", "x2")), ("min", ("var", "C"), ("var", "O"), ("var", "k")),
             ("*", ("exp", ("var", "A")), ("exp", ("var", "C"))), ("log", ("*", ("var", "A"), ("var", "k"))),
             ("/", ("var", "A"), ("var", "A")), ("-", ("var", "A"), ("var", "A")), ("abs", ("neg", ("var", "x2"))),
-            ("/", ("var", "A"), ("num", Fraction(3))), ("*", ("var", "A"), ("var", "A"))]
+            ("/", ("var", "A"), ("num", Fraction(3))), ("*", ("var", "A"), ("var", "A")),
+            ("^", ("^", ("var", "k"), 2), Fraction(1, 2)), ("^", ("^", ("-", ("var", "B_1"), ("var", "A")), 2), Fraction(3, 2)),
+            ("*", ("var", "A"), ("^", ("^", ("var", "Q"), 2), Fraction(1, 2))), ("^", ("var", "A"), Fraction(1, 2)),
+            ("^", ("^", ("var", "k"), 3), 2), ("^", ("^", ("var", "k"), 2), -1)]
     return out
 
 
@@ -117,6 +125,8 @@ def ast_value(e, env, assume):
             assume(s_not(a == 0))
         if e[2] == 0:
             assume(s_not(a == 0))          # 0^0 is not part of the claim
+        if isinstance(e[2], Fraction) and e[2].denominator != 1:
+            assume(a > 0)                  # real powers are finite for positive bases
         return sym_pow(a, e[2])
     if k == "neg":
         return -ast_value(e[1], env, assume)
@@ -137,6 +147,22 @@ def ast_value(e, env, assume):
     if k == "max":
         return s_max(*[ast_value(a, env, assume) for a in e[1:]])
     raise ValueError(k)
+
+
+def sympy_domain(tree, env, assume):
+    """points where the parsed expression is finite: log arguments > 0, bases of negative powers != 0, bases of
+    non-integer powers > 0"""
+    import sympy
+    for node in sympy.preorder_traversal(tree):
+        if isinstance(node, sympy.log):
+            assume(sympy_value(node.args[0], env) > 0)
+        elif isinstance(node, sympy.Pow):
+            ex = node.args[1]
+            if ex.is_Integer:
+                if int(ex) <= 0:
+                    assume(s_not(sympy_value(node.args[0], env) == 0))
+            else:
+                assume(sympy_value(node.args[0], env) > 0)
 
 
 def sympy_value(tree, env):
@@ -180,7 +206,7 @@ def sympy_value(tree, env):
 
 def _env(c):
     sp = {s: c.real("s_" + s, lo=0) for s in SPECIES}
-    pa = {p: c.real("p_" + p, lo=0) for p in PARAMS}
+    pa = {p: c.real("p_" + p) for p in PARAMS}          # parameters may be negative
     t = c.real("t", lo=0)
     V = c.real("V", lo=0, lo_strict=True)
     return sp, pa, t, V
@@ -226,7 +252,8 @@ def formula_job(interp, c, case):
             got = term.evaluate(ptr(interp, sv.copy()), ptr(interp, pv.copy()), t)
         else:
             got = term.volume_evaluate(ptr(interp, sv.copy()), ptr(interp, pv.copy()), V, t)
-        # layer 2: value of the sympy tree
+        # layer 2: value of the sympy tree, at the points where it is finite
+        sympy_domain(tree, env, c.assume)
         want2 = sympy_value(tree, env)
         # Heaviside(0) is excluded from the claim
         for h in tree.atoms(sympy.Heaviside):
